@@ -227,7 +227,7 @@ def shapes_for(rng, ins, outs, lo=1, hi=4):
 
 
 def generate(rng, tier, mult):
-    n = (250 if tier == "quick" else 4000) * mult
+    n = (250 if tier == "quick" else 1500) * mult
     cases = []
     for _ in range(n):
         ins, outs = gen_wf(rng, allow_dup=rng.random() < 0.15)
@@ -267,6 +267,20 @@ def generate(rng, tier, mult):
             if nm not in [a for a, _ in int2]:
                 int2.append([nm, [2]])
         cases.append({"kind": "shape", "i": ins, "o": outs, "ishapes": ish2, "internal": int2})
+        if rng.random() < 0.35:
+            # several inputs zipped on the same index; exactly one of them (any position) has a different size
+            k = rng.randint(2, 4)
+            ix = rng.choice(INDICES)
+            zi = [[f"q{t_}", [ix] if rng.random() < 0.7 else rng.choice([[ix, None], [None, ix]])] for t_ in range(k)]
+            zo = [[names_z, [ix]] for names_z in ["out"]]
+            d0 = rng.randint(1, 4)
+            zsh = [[n_, [d0 if a is not None else rng.randint(1, 3) for a in ax]] for n_, ax in zi]
+            cases.append({"kind": "shape", "i": zi, "o": zo, "ishapes": zsh, "internal": []})
+            bad = rng.randrange(k)
+            zsh2 = [[n_, list(s_)] for n_, s_ in zsh]
+            pos = zi[bad][1].index(ix)
+            zsh2[bad][1][pos] = d0 + rng.choice([1, 2])
+            cases.append({"kind": "shape", "i": zi, "o": zo, "ishapes": zsh2, "internal": []})
         sh = list(ext)
         if rng.random() < 0.12:
             sh = sh + [2] if rng.random() < 0.5 else sh[:-1]
